@@ -681,6 +681,8 @@ pub fn verify_proof(
     proof: &ArkProof<Curve>,
     proof_values: &RLNProofValues,
 ) -> Result<bool, ProofError> {
+    #[cfg(zerokit_verif)]
+    utils::verif::yield_point("verify_proof");
     // We re-arrange proof-values according to the circuit specification
     let inputs = vec![
         proof_values.y,
